@@ -65,6 +65,57 @@ class Query:
         lines.append("(check-sat)")
         return "\n".join(lines) + "\n", [ring.names[v] for v in vs]
 
+    def smt_linearised(self, produce_models=False):
+        """QF_LRA relaxation: every non-linear monomial is replaced by a fresh real (plus 'even power >= 0'). Every model of the
+        original formula is a model of the relaxation, so 'unsat' of the relaxation proves the obligation; anything else is not used."""
+        from .encode import REL_TXT
+        ring = self.enc.ring
+        mon = {}
+
+        def ren(p):
+            if not p:
+                return "0.0"
+            terms = []
+            for m, c in sorted(p.items()):
+                if not m:
+                    terms.append(P.smt_rat(c))
+                    continue
+                if len(m) == 1 and m[0][1] == 1:
+                    nm = ring.names[m[0][0]]
+                else:
+                    nm = mon.get(m)
+                    if nm is None:
+                        nm = mon[m] = "mono_%d" % len(mon)
+                terms.append(nm if c == 1 else "(* %s %s)" % (P.smt_rat(c), nm))
+            return terms[0] if len(terms) == 1 else "(+ %s)" % " ".join(terms)
+
+        def con(c):
+            cc, prim = P.primitive(c.p)
+            rel = c.rel
+            if cc < 0 and rel in (2, 3, 4, 5):
+                rel = {2: 4, 3: 5, 4: 2, 5: 3}[rel]
+            return "(%s %s 0.0)" % (REL_TXT[rel], ren(prim or {}))
+
+        body = []
+        for c in self.defcons:
+            body.append("(assert %s)" % con(c))
+        for c in self.hyps:
+            body.append("(assert %s)" % con(c))
+        gs = [con(c) for c in self.goal]
+        g = "true" if not gs else gs[0] if len(gs) == 1 else "(%s %s)" % ("or" if self.goal_any else "and", " ".join(gs))
+        body.append("(assert (not %s))" % g)
+        lines = ["(set-logic QF_LRA)"]
+        vs = sorted(self.vars)
+        for v in vs:
+            lines.append("(declare-fun %s () Real)" % ring.names[v])
+        for m, nm in mon.items():
+            lines.append("(declare-fun %s () Real)" % nm)
+            if all(e % 2 == 0 for _, e in m):
+                lines.append("(assert (>= %s 0.0))" % nm)
+        lines += body
+        lines.append("(check-sat)")
+        return "\n".join(lines) + "\n", [ring.names[v] for v in vs]
+
     def nontrivial(self):
         """does the negated goal mention at least one variable"""
         for c in self.goal:
